@@ -200,6 +200,33 @@ func (e *Eng) Render(ctx context.Context, name string, data interface{}) (res Re
 	return Result{Class: "ok", Out: b.String()}
 }
 
+// RenderBeforeRead renders `name`, then - BEFORE the result is read - renders the template `other` and reads that; only then is
+// the first result read. A result must not depend on when its reader is consumed (RenderPartials and every concurrent request
+// hold several results at a time).
+func (e *Eng) RenderBeforeRead(ctx context.Context, name string, data interface{}, other string) (res Result) {
+	defer func() {
+		if r := recover(); r != nil {
+			res = classifyPanic(r)
+		}
+	}()
+	rd, err := e.E.Render(ctx, name, data)
+	if err != nil {
+		msg := firstLine(err.Error())
+		if full := err.Error(); strings.HasPrefix(full, "Template ") && strings.HasSuffix(full, " not found!") {
+			return Result{Class: "notfound", Msg: msg}
+		}
+		return Result{Class: "error", Msg: msg}
+	}
+	if o := e.Render(ctx, other, map[string]interface{}{}); o.Class != "ok" || o.Out != otherText {
+		return Result{Class: "harness-error", Msg: "the neighbour template rendered as " + o.Class + " " + o.Out + " " + o.Msg}
+	}
+	var b bytes.Buffer
+	io.Copy(&b, rd)
+	return Result{Class: "ok", Out: b.String()}
+}
+
+const otherName, otherText = "zz0other", "~"
+
 // renderOne: one template "t" (plus optional extra files), explicit load then render.
 func renderOne(ast string, data interface{}, debug bool, extra map[string]flamingo.TemplateFunc) Result {
 	return renderAmong(map[string]string{"t": ast}, data, debug, extra)
@@ -212,7 +239,11 @@ func renderAmong(files map[string]string, data interface{}, debug bool, extra ma
 
 // renderAmongM: the same with an asset manifest next to the templates (and the module's asset() function registered)
 func renderAmongM(files map[string]string, data interface{}, debug bool, extra map[string]flamingo.TemplateFunc, manifest string) Result {
-	eng, err := newEngine(EngineSpec{Files: files, Debug: debug, Extra: extra, Manifest: manifest})
+	withOther := map[string]string{otherName: docOf(textNode(otherText))}
+	for k, v := range files {
+		withOther[k] = v
+	}
+	eng, err := newEngine(EngineSpec{Files: withOther, Debug: debug, Extra: extra, Manifest: manifest})
 	if err != nil {
 		return Result{Class: "harness-error", Msg: err.Error()}
 	}
@@ -221,7 +252,7 @@ func renderAmongM(files map[string]string, data interface{}, debug bool, extra m
 		if r := eng.Load(""); r.Class != "ok" {
 			return r
 		}
-		return eng.Render(context.Background(), "t", data)
+		return eng.RenderBeforeRead(context.Background(), "t", data, otherName)
 	}
 	// debug mode loads inside Render
 	var res Result
@@ -231,7 +262,7 @@ func renderAmongM(files map[string]string, data interface{}, debug bool, extra m
 				res = classifyPanic(r)
 			}
 		}()
-		res = eng.Render(context.Background(), "t", data)
+		res = eng.RenderBeforeRead(context.Background(), "t", data, otherName)
 	}()
 	return res
 }
